@@ -37,11 +37,11 @@ PROPS = {
     "C06": std("c06", 3000, 20000, extra=dict(engine="rapid (stream model + hand-written wire encoder) + table")),
     "C20": std("c20", 5000, 50000, extra=dict(engine="rapid (oracle by construction via reflect) + grid")),
     "C18": std("c18", 5000, 50000, extra=dict(engine="rapid stateful (model-based histories with injected faults)")),
-    "C16": std("c16", 5000, 50000, fuzz=45),
+    "C16": std("c16", 5000, 15000, fuzz=45),
     "C17": std("c17", 5000, 50000, fuzz=45),
     "C09": std("c09", 20000, 200000, fuzz=45),
-    "C08": std("c08", 10000, 100000, fuzz=30),
-    "C15": std("c15", 3000, 30000, extra=dict(engine="rapid stateful (model-based histories)")),
+    "C08": std("c08", 10000, 40000, fuzz=30),
+    "C15": std("c15", 3000, 12000, extra=dict(engine="rapid stateful (model-based histories)")),
     "C12": std("c12", 10000, 100000, fuzz=30),
     "C14": std("c14", 5000, 50000, fuzz=30),
     "C13": std("c13", 5000, 50000, fuzz=30),
